@@ -5,6 +5,6 @@ def setup(chk):
         here = os.path.dirname(os.path.dirname(os.path.abspath(__file__)))
         for f in sorted(glob.glob(os.path.join(here, 'h/C07t_*.cpp'))):
             chk.add_tu(os.path.basename(f))
-    chk.extra_evidence.update({'bounds_text': 'entry pool {1: u32|W32, 2: S0|S0b, 3: array<u8,3>, 4: Optional<u16>} x per id {absent, deleted, active, active with the fungible replacement} x declaration order; quick: 40 (writer version, reader version) pairs chosen as a pairwise cover of (writer state, reader state) per id + 3 nested placements (structure, entry of another table); thorough: 700 further pairs + array placement; all entry values and emptiness symbolic; sentinel u32 behind the table',
+    chk.extra_evidence.update({'bounds_text': 'entry pool {1: u32|W32, 2: S0|S0b, 3: array<u8,3>, 4: Optional<u16>} x per id {absent, deleted, active, active with the fungible replacement} x declaration order; quick: 40 (writer version, reader version) pairs chosen as a pairwise cover of (writer state, reader state) per id + 3 nested placements (structure, entry of another table); thorough: 300 further pairs + array placement; all entry values and emptiness symbolic; sentinel u32 behind the table',
       'outside_bounds': ['pools with more than 4 ids', 'fungible replacements that are not always-compatible (array <-> shorter logical buffer: C09)'],
       'assumes': ['histories are covered through the (writer version, reader version) pair: the property depends only on the two definitions, ids are never reused by construction of the pool']})
